@@ -632,6 +632,14 @@ func r7(c *core.Ctx, p *Parser) {
 					found = true
 				}
 			}
+			// a verdict computed in the condition itself (filter.X(...), a predicate helper of the module)
+			if call, ok := m.(*ast.CallExpr); ok {
+				if f := core.CalleeFunc(info, call); f != nil && f.Pkg() != nil && strings.HasPrefix(f.Pkg().Path(), core.Module) {
+					if sig, ok := f.Type().(*types.Signature); ok && sig.Results().Len() >= 1 && types.Identical(sig.Results().At(0).Type().Underlying(), types.Typ[types.Bool]) {
+						found = true
+					}
+				}
+			}
 			return true
 		})
 		return found
